@@ -149,8 +149,22 @@ def lastIsFirst (ws : List Tok) : Bool :=
   | some .cannot => true
   | _ => false
 
-/-- tokens of the clause proper, dependency notation, `subj` dependent present; `none` = the realization raises
-    AttributeError (`preposition_list`) -/
+/-- the prepositional questions -/
+def Int.isPPq : Int → Bool
+  | .woi | .wai | .whe | .whn => true
+  | _ => false
+
+/-- prefix and remaining prepositional dependents of `woi/wai/whe/whn` in the dependency notation: EVERY prepositional
+    dependent is looked at, the first whose preposition fits is removed (the constituent notation stops at the first
+    prepositional phrase: `questionPPPh`) -/
+def questionPPDep (i : Int) : List (Str × ArgTok) → Str × List (Str × ArgTok)
+  | [] => (intPrefix i, [])
+  | (p, a) :: r =>
+    if prepQualifies i p then ((if i == .whe || i == .whn then intPrefix i else p ++ s " " ++ whomOrWhat i), r)
+    else ((questionPPDep i r).1, (p, a) :: (questionPPDep i r).2)
+
+/-- tokens of the clause proper, dependency notation, `subj` dependent present (always defined since `preposition_list`
+    is shared with the dependency notation) -/
 def linDepPlain (sj : ArgTok) (obj : Option ArgTok) (ql : List (Str × ArgTok)) (i : Option Int) (ws : List Tok) :
     Option (List Tok) :=
   match i with
@@ -166,16 +180,24 @@ def linDepPlain (sj : ArgTok) (obj : Option ArgTok) (ql : List (Str × ArgTok)) 
     some (.q (if Gen.ClauseEn.depHumanObjectGetsIntValue && objHuman obj then s "whom" else intPrefix .wod)
       :: frontD sj ws (ppToks ql))
   | some .wad => some (.q (intPrefix .wad) :: frontD sj ws (ppToks ql))
-  | some i => if ql.isEmpty then some (.q (intPrefix i) :: frontD sj ws (objToks obj)) else none
+  | some .woi => some (.q (questionPPDep .woi ql).1 :: frontD sj ws (objToks obj ++ ppToks (questionPPDep .woi ql).2))
+  | some .wai => some (.q (questionPPDep .wai ql).1 :: frontD sj ws (objToks obj ++ ppToks (questionPPDep .wai ql).2))
+  | some .whe => some (.q (questionPPDep .whe ql).1 :: frontD sj ws (objToks obj ++ ppToks (questionPPDep .whe ql).2))
+  | some .whn => some (.q (questionPPDep .whn ql).1 :: frontD sj ws (objToks obj ++ ppToks (questionPPDep .whn ql).2))
 
 /-- objectless passive in the dependency notation: `it` is a `*pre*` dependent, found first by `move_object`, so
     nothing is inverted; there is no `subj` dependent to remove -/
 def linDepDummy (pps bl : List (Str × ArgTok)) (i : Option Int) (ws : List Tok) : Option (List Tok) :=
   let base := [Tok.arg .it] ++ ws ++ (ppToks pps ++ ppToks bl)
+  let ppq (j : Int) : Option (List Tok) :=
+    some (.q (questionPPDep j (pps ++ bl)).1 :: ([Tok.arg .it] ++ ws ++ ppToks (questionPPDep j (pps ++ bl)).2))
   match i with
   | none => some base
   | some .yon => some base
-  | some .woi | some .wai | some .whe | some .whn => if pps.isEmpty && bl.isEmpty then some (.q (intPrefix (i.getD .yon)) :: base) else none
+  | some .woi => ppq .woi
+  | some .wai => ppq .wai
+  | some .whe => ppq .whe
+  | some .whn => ppq .whn
   | some j => some (.q (intPrefix j) :: base)
 
 def agrDepPlain (agr : Agr) (i : Option Int) (ws : List Tok) : Agr :=
